@@ -578,6 +578,7 @@ class KMeansL1L2(KMeans):
             order=order,
             copy=self.copy_x,
         )
+        self.n_features_in_ = X.shape[1]
         # verify that the number of samples given is larger than k
         if _num_samples(X) < self.n_clusters:
             raise ValueError(  # pragma no cover
